@@ -3,6 +3,7 @@ module mltwist/verifh
 go 1.18
 
 require (
+	golang.org/x/exp v0.0.0-20240404231335-c0f41cb1a7a0
 	golang.org/x/sys v0.19.0
 	mltwist v0.0.0
 )
@@ -11,7 +12,6 @@ require (
 	github.com/segmentio/fasthash v1.0.3 // indirect
 	github.com/zyedidia/generic v1.2.1 // indirect
 	golang.org/x/crypto v0.22.0 // indirect
-	golang.org/x/exp v0.0.0-20240404231335-c0f41cb1a7a0 // indirect
 	golang.org/x/term v0.19.0 // indirect
 )
 
